@@ -1,5 +1,5 @@
 (* C05 — components.  Theorems only. *)
-From V Require Import Base.Bytes Base.Val Model.Stack Model.Truthy Model.Loops Model.Include Proofs.StackP Proofs.IncludeP.
+From V Require Import Base.Bytes Base.Val Model.Stack Model.Truthy Model.Loops Model.Include Proofs.StackP Proofs.IncludeP Model.FrontMatter Proofs.FrontMatterP.
 (* 1. inside the component a name resolves to the component's front-matter, else the include's
       attributes, else the includer's variables (which stay visible) *)
 Theorem C05_include_scope : forall s vars fm k,
@@ -56,3 +56,30 @@ Example C05_tag_names :
   tag_of_path (bs "components/ui/BadgeItem.vuego") = Some (bs "ui-badge-item") /\
   tag_of_path (bs "layouts/base.vuego") = None.
 Proof. vm_compute. auto. Qed.
+
+(* 5. where a component file's front matter ends (loader.go:extractFrontMatter): a file that opens with the fence, holds
+   a block in which no line begins with three dashes, and closes it with a fence on its own line has exactly that block
+   as its front matter and exactly the rest as its body - whatever the body holds; without an opening fence, or without
+   a closing one, the whole file is body *)
+Theorem C05_front_matter_block : forall y body, fence_free y ->
+  extract (fence ++ y ++ x0a :: fence ++ x0a :: body) = (Some y, body).
+Proof. exact extract_block. Qed.
+Print Assumptions C05_front_matter_block.
+Theorem C05_front_matter_absent : forall s, strip fence s = None -> extract s = (None, s).
+Proof. exact extract_none. Qed.
+Print Assumptions C05_front_matter_absent.
+Theorem C05_front_matter_unclosed : forall y, fence_free y -> extract (fence ++ y) = (None, fence ++ y).
+Proof. exact extract_unclosed. Qed.
+Print Assumptions C05_front_matter_unclosed.
+Example C05_front_matter_example :
+  extract (bs "---
+title: A --- B
+---
+<p>body</p>
+---
+more") = (Some (bs "
+title: A --- B"), bs "<p>body</p>
+---
+more") /\ fence_free (bs "
+title: A --- B").
+Proof. split; [vm_compute; reflexivity|apply fence_free_dec; vm_compute; reflexivity]. Qed.
